@@ -35,6 +35,7 @@ type nodeEv struct {
 	Kind string // getheaders | sendheaders | headers | inv | <other command>
 	Idx  []int  // sent headers / inv: tree indices
 	GH   *ghReq // received getheaders
+	Multi bool  // sent inv: carried already announced blocks and non-block entries besides the new blocks
 }
 
 type scriptNode struct {
@@ -307,7 +308,7 @@ func (n *scriptNode) conformantReply(req ghReq) []int {
 	var out []int
 	for k := start; k < len(chain) && len(out) < n.spec.Cap; k++ {
 		out = append(out, chain[k])
-		if n.tree.hash[chain[k]] == req.Stop {
+		if n.tree.hash[chain[k]] == req.Stop && !n.spec.NoStop {
 			break
 		}
 	}
@@ -347,6 +348,34 @@ func (n *scriptNode) sendInv(idxs []int) error {
 	n.mu.Lock()
 	n.sentLog = append(n.sentLog, "inv "+compactInts(idxs))
 	n.hist = append(n.hist, nodeEv{Sent: true, Kind: "inv", Idx: append([]int{}, idxs...)})
+	n.mu.Unlock()
+	return n.write(m)
+}
+
+// invEntry is one inventory vector of an inv message: a block, or a non-block (tx) entry carrying some hash.
+type invEntry struct {
+	Tx  bool
+	Idx int
+}
+
+// sendInvEntries sends one inv with block and non-block entries in the given order; the history records the block
+// entries (in order).
+func (n *scriptNode) sendInvEntries(es []invEntry) error {
+	m := wire.NewMsgInv()
+	var blocks []int
+	for _, e := range es {
+		h := chainhash.Hash(n.tree.hash[e.Idx])
+		typ := wire.InvTypeBlock
+		if e.Tx {
+			typ = wire.InvTypeTx
+		} else {
+			blocks = append(blocks, e.Idx)
+		}
+		_ = m.AddInvVect(wire.NewInvVect(typ, &h))
+	}
+	n.mu.Lock()
+	n.sentLog = append(n.sentLog, "invx "+compactInts(blocks))
+	n.hist = append(n.hist, nodeEv{Sent: true, Kind: "inv", Idx: blocks, Multi: true})
 	n.mu.Unlock()
 	return n.write(m)
 }
